@@ -412,11 +412,11 @@ MUTANTS = [
       "                self.add_samples(shell, verbose=verbose)\n"
       "                if self.filepath is not None:\n"
       "                    self.write_shell_update(self.filepath, shell)\n\n"
-      "            elif self.n_eff < n_eff:",
+      "            # The effective sample size",
       "                self.add_samples(shell, verbose=verbose)\n"
       "                if self.filepath is not None:\n"
       "                    self.write_shell_update(self.filepath, -1)\n\n"
-      "            elif self.n_eff < n_eff:", 'C05'),
+      "            # The effective sample size", 'C05'),
     M('crossed-keys', N, "bound.n_sample = group.attrs['n_sample']",
       "bound.n_sample = group.attrs['n_reject']", 'C09'),
     M('reader-skips-cube', U, "        else:\n            bound.cube = None\n\n"
@@ -773,6 +773,15 @@ MUTANTS = [
       "        self.reset(rng=rng)\n"
       "        self.sample(n_points=n_points, return_points=False)\n        return self\n", 'C08 C03'),
     M('job-shallow-copy', N, "        bound = copy.deepcopy(self)\n", "        bound = copy.copy(self)\n", 'C08 C03'),
+    M('rounding-draw-from-generator-copy', S,
+      "            repeats = np.floor(repeats).astype(int) + (\n                self.rng.random(len(repeats))",
+      "            rng = np.random.default_rng(self.rng.bit_generator.random_raw())\n"
+      "            rng = np.random.default_rng(0)\n"
+      "            repeats = np.floor(repeats).astype(int) + (\n                rng.random(len(repeats))", 'C14'),
+    M('dispatch-relies-on-trichotomy', S, "            elif not self.n_eff >= n_eff:", "            elif self.n_eff < n_eff:", 'C10'),
+    M('run-argument-not-validated', S,
+      "        if not isinstance(discard_exploration, bool):\n            raise ValueError(\"'discard_exploration' must be a bool.\")\n\n        t_start = time()",
+      "        t_start = time()", 'C12'),
     M('job-returns-the-caller', N,
       "        bound.sample(n_points=n_points, return_points=False)\n        return bound\n",
       "        bound.sample(n_points=n_points, return_points=False)\n        return self\n", 'C08 C03'),
@@ -806,6 +815,12 @@ BENIGN = [
     M('union-block-read-asarray', U,
       "            bound.block = np.array(group.attrs['block'], dtype=bool)\n",
       "            bound.block = np.asarray(group.attrs['block']).astype(bool)\n", ALL),
+    M('dispatch-strict-greater', S, "            elif not self.n_eff >= n_eff:", "            elif not self.n_eff > n_eff:", ALL),
+    M('dispatch-else', S, "            elif not self.n_eff >= n_eff:", "            else:", ALL),
+    M('dispatch-not-parenthesised', S, "            elif not self.n_eff >= n_eff:", "            elif not (self.n_eff >= n_eff):", ALL),
+    M('run-argument-typeerror', S,
+      "        if not isinstance(discard_exploration, bool):\n            raise ValueError(\"'discard_exploration' must be a bool.\")\n\n        t_start = time()",
+      "        if not isinstance(discard_exploration, bool):\n            raise TypeError(\"'discard_exploration' must be a bool.\")\n\n        t_start = time()", ALL),
     M('job-copy-renamed', N,
       "        bound = copy.deepcopy(self)\n        bound.reset(rng=rng)\n"
       "        bound.sample(n_points=n_points, return_points=False)\n        return bound\n",
